@@ -105,6 +105,9 @@ def rand_objective(rng, seq):
     if k == "keep":
         return dict(kind="keep_obj", location=None if rng.random() < 0.5 else rand_loc(rng, n, 2, strands=(1, 0)), boost=boost)
     if k == "change":
+        if rng.random() < 0.3:
+            idx = rng.sample(range(n), rng.randint(1, min(n, 5)))      # as the user wrote them: not sorted
+            return dict(kind="change_obj", location=None, indices=idx, amount_percent=rng.choice([None, None, 50]), boost=boost)
         return dict(kind="change_obj", location=None if rng.random() < 0.5 else rand_loc(rng, n, 2, strands=(1, 0)),
                     amount_percent=rng.choice([None, None, 50]), boost=boost)
     if k == "gc":
@@ -289,7 +292,11 @@ def rand_solver_problem(rng, nmin=8, nmax=40, soft=None, objectives=True, hardma
     cons += [rand_soft(rng, seq, allow=soft) for _ in range(rng.randint(1, softmax))]
     rng.shuffle(cons)
     objs = [rand_objective(rng, seq) for _ in range(rng.randint(0, 3))] if objectives else []
-    return dict(sequence=seq, constraints=cons, objectives=objs, settings=rand_settings(rng), np_seed=rng.randint(0, 10 ** 6))
+    d = dict(sequence=seq, constraints=cons, objectives=objs, settings=rand_settings(rng), np_seed=rng.randint(0, 10 ** 6))
+    if rng.random() < 0.12:
+        # the same specification objects were first used on another sequence of the same length
+        d["reuse_after"] = hard.rand_seq(rng, n)
+    return d
 
 
 def apply_settings(problem, sett):
